@@ -1,7 +1,7 @@
 (* C13 - each low-level Encoder/Decoder call handles exactly one reference-encoded field. *)
 From Coq Require Import List ZArith Bool.
 From Pico Require Import Base.Res Base.Mach Wire.Wire Schema.Types Schema.Scalar Ref.Ref
-  Schema.ScalarProofs Enc.Enc Enc.EncProofs Dec.Dec Dec.ReaderProofs Dec.SafetyProofs Dec.LoopInst Dec.TokenBridge Dec.StreamLoop Dec.ReaderBridge Schema.TDec gen.ConvGen gen.TypesTable.
+  Schema.ScalarProofs Enc.Enc Enc.EncProofs Dec.Dec Dec.ReaderProofs Dec.SafetyProofs Dec.LoopInst Dec.TokenBridge Dec.StreamLoop Dec.ReaderBridge Schema.TDec Schema.Interp Schema.EncSpec Schema.Calls gen.ConvGen gen.TypesTable.
 Import ListNotations.
 Open Scope Z_scope.
 
@@ -76,6 +76,22 @@ Proof. exact dec_packed_unpack. Qed.
 (* Message / PresentMessage / RepeatedMessage / UnrecognizedFields and arbitrary generated programs of calls: their
    contracts are the lemmas dec_message_step, repmsg_iter, unrec_loop of Schema/TDec.v, composed into T_dec (C02). *)
 
+(* PROGRAMS of Encoder calls, as a hand-written custom type may issue them - any sequence of typed writers, RepeatedEnum,
+   UnrecognizedFields and Message / AlwaysMessage / PresentMessage / AlwaysAnyBytes nested to any depth, whose callbacks may
+   write anything and then report presence or absence: the buffer receives exactly the concatenation of the reference
+   encodings (length prefixes minimal at every level), whatever it held before *)
+Theorem C13_encoder_programs : forall fuel cs buf, forallb (call_ok fuel) cs = true ->
+  run_calls fuel cs buf = Ok (buf ++ flat_map (spec_call fuel) cs).
+Proof. exact run_calls_spec. Qed.
+(* ... and a Message whose callback reports absence leaves no trace, whatever it wrote before *)
+Theorem C13_absent_message_no_trace : forall fuel field cs buf, call_ok fuel (CMessage field cs false) = true ->
+  run_call fuel (CMessage field cs false) buf = Ok buf.
+Proof. exact absent_message_no_trace. Qed.
+Example C13_program_example :
+  let p := [CMessage 1 [CScalar KInt32 false false 2 [VInt 7]; CMessage 3 [CScalar KString true false 1 [VBytes [104; 105]]] false] true; CUnrec [8; 1]] in
+  forallb (call_ok 5) p = true /\ run_calls 5 p [9] = Ok [9; 10; 2; 16; 7; 8; 1].
+Proof. split; vm_compute; reflexivity. Qed.
+
 (* tie to the source by translation: the zig-zag terms regenerated from conv.go/wire.go are the
    model's, and the generator's types table is the one the model mirrors *)
 Theorem C13_source_conv : (forall x, gen_encode_zigzag32 x = encode_zigzag32 x) /\ (forall x, gen_decode_zigzag32 x = decode_zigzag32 x) /\
@@ -100,3 +116,5 @@ Print Assumptions C13_reader_next.
 Print Assumptions C13_reader_any_input.
 Print Assumptions C13_repeated_reader_iteration.
 Print Assumptions C13_packed_is_reference_unpack.
+Print Assumptions C13_encoder_programs.
+Print Assumptions C13_absent_message_no_trace.
